@@ -72,8 +72,8 @@ def missingBaseErr (enc : Nat) : Err :=
 
 open Gimli.CfiEntry in
 /-- the bytes of an operand (a 64-bit pattern `x`; negative operands of the signed formats are
-their two's-complement patterns) in value format `enc % 16`, when it fits.  `sleb128` is not
-given an encoder here (no signed-LEB round-trip theorem exists yet): `none`. -/
+their two's-complement patterns) in value format `enc % 16`, when it fits; `sleb128` encodes the
+signed reading of the pattern. -/
 def encodeOperand (e : Endian) (enc asz x : Nat) : Option Bytes :=
   let f := peFormat enc
   if f = 0 then
@@ -85,6 +85,7 @@ def encodeOperand (e : Endian) (enc asz x : Nat) : Option Bytes :=
   else if f = 0x0a then (if sext 2 (x % 2 ^ 16) = x then some (Ints.toBytes e 2 (x % 2 ^ 16)) else none)
   else if f = 0x0b then (if sext 4 (x % 2 ^ 32) = x then some (Ints.toBytes e 4 (x % 2 ^ 32)) else none)
   else if f = 0x0c then (if x < 2 ^ 64 then some (Ints.toBytes e 8 x) else none)
+  else if f = 9 then (if x < 2 ^ 64 then some (Leb.encodeS (Leb.toI64 x)) else none)
   else none
 
 /-- an operand that makes `base + operand ≡ target` modulo the address size (the canonical
@@ -96,8 +97,7 @@ def operandFor (asz base target : Nat) : Nat :=
 
 `encodeFrameSection` lays out a list of abstract CIEs/FDEs (and zero-length words) as the DWARF /
 LSB text prescribes; a section is *well-formed* when it is the image of such a list satisfying
-`WF`. (`daf` is restricted to one-byte SLEB128, `-64 ≤ daf < 64`, and pointer operands to the
-formats `encodeOperand` covers — no sleb128 —, for lack of a signed-LEB128 round-trip theorem.) -/
+`WF`. -/
 
 open Gimli.CfiEntry
 
@@ -140,9 +140,6 @@ structure ACie where
   rar : Nat
   instr : Bytes
 
-/-- one-byte signed LEB128 of `-64 ≤ v < 64` -/
-def sleb1 (v : Int) : UInt8 := UInt8.ofNat (v % 128).toNat
-
 /-- the length field: 4 bytes, or `0xffff_ffff` and 8 bytes -/
 def lengthField (e : Endian) (f : Format) (n : Nat) : Bytes :=
   match f with
@@ -176,7 +173,7 @@ def ACie.augBlock (e : Endian) (ci : ACie) : Bytes :=
 code and data alignment factors, return address register, (augmentation data), instructions -/
 def ACie.fields (eh : Bool) (e : Endian) (ci : ACie) : Bytes :=
   UInt8.ofNat ci.version :: (ci.augString ++ 0 :: (ci.aszBytes eh ++ (Leb.encodeU ci.caf ++
-    sleb1 ci.daf :: (ci.rarBytes ++ (ci.augBlock e ++ ci.instr)))))
+    (Leb.encodeS ci.daf ++ (ci.rarBytes ++ (ci.augBlock e ++ ci.instr))))))
 
 /-- a CIE entry: length, id, fields -/
 def encodeCie (eh : Bool) (e : Endian) (ci : ACie) : Bytes :=
@@ -237,7 +234,7 @@ def cieAsz (c : Cfg) (ci : ACie) : Nat := if ¬ c.eh ∧ ci.version = 4 then ci.
 /-- offset of the first byte after the return-address register, for fields starting at `o` -/
 def ACie.afterRar (c : Cfg) (ci : ACie) (o : Nat) : Nat :=
   o + 1 + ci.augString.length + 1 + (if ¬ c.eh ∧ ci.version = 4 then 2 else 0) +
-    (Leb.encodeU ci.caf).length + 1 + ci.rarBytes.length
+    (Leb.encodeU ci.caf).length + (Leb.encodeS ci.daf).length + ci.rarBytes.length
 
 /-- offset of the augmentation data (after its length) -/
 def ACie.dataOff (c : Cfg) (ci : ACie) (o : Nat) : Nat :=
@@ -258,7 +255,7 @@ structure ACie.WF (c : Cfg) (bases : Bases) (ci : ACie) (o : Nat) : Prop where
   hasz : ci.asz = 1 ∨ ci.asz = 2 ∨ ci.asz = 4 ∨ ci.asz = 8
   hsame : ¬ (¬ c.eh ∧ ci.version = 4) → ci.asz = c.asz
   hcaf : ci.caf < 2 ^ 64
-  hdaf : -64 ≤ ci.daf ∧ ci.daf < 64
+  hdaf : -(2 : Int) ^ 63 ≤ ci.daf ∧ ci.daf < 2 ^ 63
   hrar : if ci.version = 1 then ci.rar < 256 else ci.rar < 2 ^ 16
   hargs : ∀ arg, arg ∈ ci.args → ArgWF c.e bases.ehFrame ci.asz arg
   hbase : (applyArgs c.e bases.ehFrame ci.asz ci.args {} (ci.dataOff c o)).isSome = true
@@ -395,33 +392,45 @@ structure AFde.WF (c : Cfg) (bases : Bases) (cie : Cie) (fd : AFde) (fdeOff : Na
   hdata : (fd.augData c.e cie).length < 2 ^ 64
 
 
-/-- an abstract entry; an FDE names the (parsed) CIE it belongs to -/
+/-- an abstract entry; an FDE names the (parsed) CIE it belongs to; `zero f` is a zero length
+field in format `f` (4 zero bytes, or `0xffff_ffff` and 8 zero bytes): the reader skips it in
+`.debug_frame` (in `.eh_frame` it terminates the section, see `encodeFrameSection`) -/
 inductive AEntry where
   | cie (ci : ACie)
   | fde (cie : Cie) (fd : AFde)
+  | zero (f : Format)
 
 def AEntry.size (eh : Bool) (e : Endian) : AEntry → Nat
   | .cie ci => ci.size eh e
   | .fde k fd => fd.size eh e k
+  | .zero f => lsz f
 
 /-- the entries laid out one after the other from section offset `off` -/
 def encodeEntries (eh : Bool) (e : Endian) : Nat → List AEntry → Bytes
   | _, [] => []
   | off, .cie ci :: t => encodeCie eh e ci ++ encodeEntries eh e (off + ci.size eh e) t
   | off, .fde cie fd :: t => encodeFde eh e cie off fd ++ encodeEntries eh e (off + fd.size eh e cie) t
+  | off, .zero f :: t => lengthField e f 0 ++ encodeEntries eh e (off + lsz f) t
+
+/-- the optional terminator: a zero length field -/
+def terminatorBytes (e : Endian) : Option Format → Bytes
+  | none => []
+  | some f => lengthField e f 0
 
 /-- a whole `.eh_frame` / `.debug_frame` section: the entries, optionally followed by a zero
-length word (the `.eh_frame` terminator; skipped in `.debug_frame`) -/
-def encodeFrameSection (eh : Bool) (e : Endian) (es : List AEntry) (terminator : Bool) : Bytes :=
-  encodeEntries eh e 0 es ++ (if terminator then [0, 0, 0, 0] else [])
+length field of either format (the `.eh_frame` terminator; skipped in `.debug_frame`) -/
+def encodeFrameSection (eh : Bool) (e : Endian) (es : List AEntry) (terminator : Option Format) : Bytes :=
+  encodeEntries eh e 0 es ++ terminatorBytes e terminator
 
-/-- what the iterator must yield -/
+/-- what the iterator must yield (zero length fields yield nothing) -/
 def expectEntries (c : Cfg) (bases : Bases) : Nat → List AEntry → List Entry
   | _, [] => []
   | off, .cie ci :: t => .cie (ci.expect c bases off) :: expectEntries c bases (off + ci.size c.eh c.e) t
   | off, .fde cie fd :: t => .fde (fd.expectPartial c cie off) :: expectEntries c bases (off + fd.size c.eh c.e cie) t
+  | off, .zero f :: t => expectEntries c bases (off + lsz f) t
 
-/-- every entry is well formed at the offset where it is laid out -/
+/-- every entry is well formed at the offset where it is laid out; zero length fields between
+entries only in `.debug_frame` -/
 def EntriesWF (c : Cfg) (bases : Bases) : Nat → List AEntry → Prop
   | _, [] => True
   | off, .cie ci :: t =>
@@ -429,7 +438,7 @@ def EntriesWF (c : Cfg) (bases : Bases) : Nat → List AEntry → Prop
     LenOk ci.format (idSize c.eh ci.format + (ci.fields c.eh c.e).length) ∧
     EntriesWF c bases (off + ci.size c.eh c.e) t
   | off, .fde cie fd :: t => fd.WF c bases cie off ∧ EntriesWF c bases (off + fd.size c.eh c.e cie) t
-
+  | off, .zero f :: t => c.eh = false ∧ EntriesWF c bases (off + lsz f) t
 
 /-- total encoded size of a list of entries -/
 def totalSize (eh : Bool) (e : Endian) : List AEntry → Nat
